@@ -216,4 +216,54 @@ theorem faithful_of_colonFree (all : List Config) (E : Str → Prop) (hE : ∀ e
   have := makeKey_inj (by rw [ho1]; exact hE e1 he1) (by rw [ho2]; exact hE e2 he2) hk
   exact ⟨this.2.1, this.2.2.1⟩
 
+/-! ## several workers asking for the same sampler key (any order of the atomic `get` steps) -/
+
+/-- what a `get` leaves in the caches: what was there, or the sampler just built from the current
+configuration, stamped with the current reload count -/
+theorem step_get_caches {all : List Config} {E : Str → Prop} {cfgs : List Config} {st : St}
+    (h : Inv all E st) (w : Nat) (env : Str) (hE : E env) :
+    (step cfgs st (.get w env)).cfg = st.cfg ∧ (step cfgs st (.get w env)).epoch = st.epoch ∧
+    ∀ key ent, (key, ent) ∈ (step cfgs st (.get w env)).caches →
+      (key, ent) ∈ st.caches ∨ (key = (w, env) ∧ ent.epoch = st.epoch ∧
+        ent.slots.map (fun s => (s.pfx, s.d)) = slotsOf st.cfg env) := by
+  simp only [step]
+  cases hc : AList.get st.caches (w, env) with
+  | some _ => exact ⟨rfl, rfl, fun key ent hm => Or.inl hm⟩
+  | none =>
+    simp only
+    cases hg : getSampler st env with
+    | none => exact ⟨rfl, rfl, fun key ent hm => Or.inl hm⟩
+    | some r =>
+      obtain ⟨st1, slots⟩ := r
+      simp only
+      have hP : ∀ pd ∈ slotsOf st.cfg env, InPlay all E pd :=
+        fun pd hpd => ⟨st.cfg, h.cfg, env, hE, hpd⟩
+      have m := getSampler_out h.r hP hg
+      refine ⟨m.ext.cfg, m.ext.epoch, fun key ent hm => ?_⟩
+      rcases mem_put hm with e | ⟨hm', _⟩
+      · obtain ⟨rfl, rfl⟩ := Prod.mk.inj e
+        exact Or.inr ⟨rfl, m.ext.epoch, m.shape⟩
+      · left; rw [← m.ext.caches]; exact hm'
+
+theorem foldl_gets_caches {all : List Config} {E : Str → Prop} {cfgs : List Config}
+    (hsub : ∀ c ∈ cfgs, c ∈ all) (env : Str) (hE : E env) :
+    ∀ (ws : List Nat) (st : St), Inv all E st →
+      let st' := (ws.map fun w => Op.get w env).foldl (step cfgs) st
+      st'.cfg = st.cfg ∧ st'.epoch = st.epoch ∧
+      ∀ key ent, (key, ent) ∈ st'.caches →
+        (key, ent) ∈ st.caches ∨ (key.2 = env ∧ ent.epoch = st.epoch ∧
+          ent.slots.map (fun s => (s.pfx, s.d)) = slotsOf st.cfg env)
+  | [], st, _ => ⟨rfl, rfl, fun key ent hm => Or.inl hm⟩
+  | w :: ws, st, h => by
+    obtain ⟨c1, e1, m1⟩ := step_get_caches (cfgs := cfgs) h w env hE
+    have h1 := inv_step hsub h (.get w env) (fun w' e' he => by cases he; exact hE)
+    obtain ⟨c2, e2, m2⟩ := foldl_gets_caches hsub env hE ws _ h1
+    simp only [List.map_cons, List.foldl_cons]
+    refine ⟨c2.trans c1, e2.trans e1, fun key ent hm => ?_⟩
+    rcases m2 key ent hm with hm' | ⟨a, b, c⟩
+    · rcases m1 key ent hm' with hm'' | ⟨a, b, c⟩
+      · exact Or.inl hm''
+      · right; rw [a]; exact ⟨rfl, b, c⟩
+    · right; exact ⟨a, b.trans e1, by rw [c, c1]⟩
+
 end Refinery.Lemmas.SamplerRegistry
